@@ -1,10 +1,249 @@
-(* C15 -- placeholder while the correspondence is being established; replaced by the full statements. *)
-From Coq Require Import String.
-From Coq Require Import List NArith ZArith Bool.
-From AV Require Import model.Proto model.Cli.
-Import ListNotations.
+(* C15 -- every input ends in a result or a diagnostic, never a crash or a hang.
+   Only statements, each closed by an exact lemma, with Print Assumptions.
 
-Theorem C15_usage_and_nofile : forall ens,
-  run_invocation ens IUsage = Ok Exit2 /\ run_invocation ens INoFile = Ok Exit1.
-Proof. intros ens. split; reflexivity. Qed.
-Print Assumptions C15_usage_and_nofile.
+   Reading guide.  model/Cli.v composes the models of the other properties into the four commands and into the
+   library entry points that take text.  Each of those models returns `Panic cls` exactly where the Go code has
+   an unchecked index, slice, division, type assertion or `make`, and `OutOfFuel` where a loop of the model
+   would need more fuel than its entry point passes.  `answers o` says: o is `Ok _` or `Err _`.  A theorem
+   `answers (entry s)` for EVERY byte string s is therefore an argument that no such site is reachable from
+   that entry point (docs/C15.md lists the sites, their guards, and the lemma that discharges each).
+
+   The ensemble of `search` is an argument of the model: `ens n` is the list of results of exec.Execute(n, a)
+   for the algorithms a of ensemble.Ensemble().  `ens_ok ens` -- never empty, every result an error or a program
+   whose operands refer to existing elements -- is what C01 establishes for the real ensemble; the algorithms'
+   own index/division sites (alg/dict/dict.go, alg/contfrac, alg/heuristic: sum[k] of an empty sum, ns[k-2],
+   division by a zero delta ...) are discharged there, behind the `n >= 1` check that `search` performs.
+
+   PARTIAL with respect to the full property text (checks/C15.json): Gallina functions terminate by
+   construction, and the fuel lemmas show that the MODEL never runs out, but "the tool terminates on its own"
+   in wall-clock time (2^(2^40), x << 10^12: excluded by the property's "bounded size and bounded shift
+   amounts"), Go stack exhaustion on pathological nesting, and the Go runtime are outside any Coq statement.
+   They are covered only by the harness (real binary under a time-out).  C15_model_statement below is the
+   complete statement of everything else. *)
+From Coq Require Import String.
+From Coq Require Import List NArith ZArith Bool Lia.
+From AV Require Import model.Proto model.Chain model.Program model.Ast model.Ir.
+From AV Require Import proofs.ProgramProofs proofs.ParProofs proofs.BuildProofs.
+From AV Require Import model.Printer model.Peg model.Translate model.Decompile model.Naming model.Build model.Alloc model.Gen.
+From AV Require Import model.Cli proofs.CliProofs.
+From AV Require model.Calc model.Par.
+Import ListNotations.
+Open Scope Z_scope.
+
+(* ---- the library entry points: a value or an error for every byte string ---- *)
+Theorem C15_no_panic_parse : forall s, answers (lib_parse s).
+Proof. exact no_panic_parse. Qed.
+Print Assumptions C15_no_panic_parse.
+
+Theorem C15_no_panic_translate : forall s, answers (lib_translate s).
+Proof. exact no_panic_translate. Qed.
+Print Assumptions C15_no_panic_translate.
+
+Theorem C15_no_panic_load : forall s, answers (lib_load s).
+Proof. exact no_panic_load. Qed.
+Print Assumptions C15_no_panic_load.
+
+Theorem C15_no_panic_build : forall s, answers (lib_build s).
+Proof. exact no_panic_build. Qed.
+Print Assumptions C15_no_panic_build.
+
+Theorem C15_no_panic_print : forall s, answers (lib_print s).
+Proof. exact no_panic_print. Qed.
+Print Assumptions C15_no_panic_print.
+
+Theorem C15_no_panic_prepare : forall s, answers (lib_prepare s).
+Proof. exact no_panic_prepare. Qed.
+Print Assumptions C15_no_panic_prepare.
+
+Theorem C15_no_panic_generate : forall typ s, answers (lib_generate typ s).
+Proof. exact no_panic_generate. Qed.
+Print Assumptions C15_no_panic_generate.
+
+Theorem C15_no_panic_calc : forall s, answers (lib_calc s).
+Proof. exact no_panic_calc. Qed.
+Print Assumptions C15_no_panic_calc.
+
+(* `answers` unfolded, for the reader *)
+Theorem C15_answers_means : forall A (o : outcome A), answers o <-> (exists a, o = Ok a) \/ (exists c, o = Err c).
+Proof. exact @answers_ok_or_err. Qed.
+Print Assumptions C15_answers_means.
+
+(* ---- the same on syntax trees, however they were obtained (any nesting, any names, any shift amounts) ---- *)
+Theorem C15_tree_translate : forall c, answers (translate c).
+Proof. exact translate_answers. Qed.
+Print Assumptions C15_tree_translate.
+
+Theorem C15_tree_load : forall c, answers (load_tree c).
+Proof. exact load_tree_answers. Qed.
+Print Assumptions C15_tree_load.
+
+Theorem C15_tree_build : forall c, answers (obind (translate c) build_named).
+Proof. exact translate_build_answers. Qed.
+Print Assumptions C15_tree_build.
+
+Theorem C15_tree_prepare : forall cfg c, answers (prepare cfg c).
+Proof. exact prepare_answers. Qed.
+Print Assumptions C15_tree_prepare.
+
+(* Build on instruction lists: no panic as soon as no instruction is a shift by zero (Translate and Decompile
+   never emit one) *)
+Theorem C15_build_ir : forall P, pos_shifts P -> answers (build P) /\ answers (build_named P).
+Proof. intros P H. split; [now apply build_answers|now apply build_named_answers]. Qed.
+Print Assumptions C15_build_ir.
+
+Theorem C15_translate_no_zero_shift : forall c P, translate c = Ok P -> pos_shifts P.
+Proof. intros c P H. pose proof (translate_shape c) as Hs. now rewrite H in Hs. Qed.
+Print Assumptions C15_translate_no_zero_shift.
+
+(* ---- the command line ---- *)
+Theorem C15_cli_no_panic : forall ens c, ens_ok ens ->
+  cli ens c = Ok Exit0 \/ cli ens c = Ok Exit1 \/ cli ens c = Ok Exit2.
+Proof. intros ens c H. destruct (cli_no_panic ens c H) as ([| |] & ->); auto. Qed.
+Print Assumptions C15_cli_no_panic.
+
+(* including the invocations that never reach a command body: flag errors, missing expression, missing file *)
+Theorem C15_invocation_no_panic : forall ens i, ens_ok ens -> exists e, run_invocation ens i = Ok e.
+Proof. exact invocation_no_panic. Qed.
+Print Assumptions C15_invocation_no_panic.
+
+(* eval, fmt, fmt -b and gen do not depend on the ensemble at all *)
+Theorem C15_script_commands_no_panic : forall ens src b typ,
+  (exists e, cli ens (Eval src) = Ok e) /\ (exists e, cli ens (Fmt b src) = Ok e) /\ (exists e, cli ens (Gen typ src) = Ok e).
+Proof.
+  intros ens src b typ. cbn [cli]. repeat split; apply or_fail_exits.
+  - unfold eval_out. apply from_text, eval_tree_answers.
+  - unfold fmt_out. apply from_text. intros t. apply fmt_tree_answers.
+  - unfold gen_out. apply from_text. intros t. apply gen_tree_answers.
+Qed.
+Print Assumptions C15_script_commands_no_panic.
+
+(* search: which diagnostic for which degenerate input *)
+Theorem C15_search_concurrency_below_1 : forall ens expr p add dbl, p < 1 -> search ens expr p add dbl = Ok Exit2.
+Proof. exact search_concurrency_usage. Qed.
+Print Assumptions C15_search_concurrency_below_1.
+
+Theorem C15_search_bad_expression : forall ens expr p add dbl c, 1 <= p -> Calc.eval expr = Err c ->
+  search ens expr p add dbl = Ok Exit1.
+Proof. exact search_bad_expression. Qed.
+Print Assumptions C15_search_bad_expression.
+
+Theorem C15_search_nonpositive_target : forall ens expr p add dbl n, 1 <= p -> Calc.eval expr = Ok n -> n < 1 ->
+  search ens expr p add dbl = Ok Exit1.
+Proof. exact search_nonpositive_target. Qed.
+Print Assumptions C15_search_nonpositive_target.
+
+(* ... and a result for every positive target (n = 1 included), any -p >= 1 and ANY cost values (NaN, infinities,
+   negative), when every algorithm returns the program of a chain without repeated elements *)
+Theorem C15_search_positive_target : forall ens expr p add dbl n, 1 <= p -> Calc.eval expr = Ok n -> 1 <= n ->
+  ens n <> [] -> Forall result_good (ens n) -> search ens expr p add dbl = Ok Exit0.
+Proof. exact search_positive_target. Qed.
+Print Assumptions C15_search_positive_target.
+
+(* ---- no deadlock: the function par_execute used in `search` against the transition system of C12 ---- *)
+Theorem C15_search_no_deadlock : forall R (results : list R) (d : R) (limit : nat), (1 <= limit)%nat ->
+  let k := length results in
+  let res := fun i => nth i results d in
+  par_execute (Z.of_nat limit) results = Ok results /\
+  (forall s, reachable R k limit res s -> Par.pc s <> Par.PReturned -> exists l s', Par.step_ok R k limit res s l = Some s') /\
+  (forall ls s, path R k limit res (Par.init R k) ls s -> (length ls <= 5 * k + limit + 1)%nat) /\
+  (forall s, reachable R k limit res s -> Par.pc s = Par.PReturned -> Par.rs s = map Some results).
+Proof. exact par_execute_all_schedules. Qed.
+Print Assumptions C15_search_no_deadlock.
+
+(* the `-p 0` hang, which the p >= 1 check excludes *)
+Theorem C15_limit0_deadlocks : forall R (results : list R) (d : R), results <> [] ->
+  par_execute 0 results = Panic ($"deadlock") /\
+  forall l, Par.step_ok R (length results) 0 (fun i => nth i results d) (Par.init R (length results)) l = None.
+Proof. exact par_execute_limit0. Qed.
+Print Assumptions C15_limit0_deadlocks.
+
+(* the huge `-p` hang (a complete execution takes exactly 5k + limit + 1 steps, C12_maximal_returns), which the
+   clamp to the number of algorithms excludes: at most 6k + 1 steps whatever -p is *)
+Theorem C15_search_barrier_bounded : forall R (results : list R) (d : R) p, 1 <= p -> (1 <= length results)%nat ->
+  let k := length results in
+  let limit := Z.to_nat (Z.min p (Z.of_nat k)) in
+  (1 <= limit)%nat /\
+  forall ls s, path R k limit (fun i => nth i results d) (Par.init R k) ls s -> (length ls <= 6 * k + 1)%nat.
+Proof. exact search_barrier_bounded. Qed.
+Print Assumptions C15_search_barrier_bounded.
+
+(* ---- everything except wall-clock time, stack and runtime, in one statement ---- *)
+Definition C15_model_statement : Prop :=
+  (forall s, answers (lib_parse s) /\ answers (lib_translate s) /\ answers (lib_load s) /\ answers (lib_build s) /\
+             answers (lib_print s) /\ answers (lib_prepare s) /\ answers (lib_calc s)) /\
+  (forall typ s, answers (lib_generate typ s)) /\
+  (forall ens i, ens_ok ens ->
+     run_invocation ens i = Ok Exit0 \/ run_invocation ens i = Ok Exit1 \/ run_invocation ens i = Ok Exit2).
+
+Theorem C15_all_inputs_partial : C15_model_statement.
+Proof.
+  split; [|split].
+  - intros s. repeat split; [apply no_panic_parse|apply no_panic_translate|apply no_panic_load|apply no_panic_build|
+                              apply no_panic_print|apply no_panic_prepare|apply no_panic_calc].
+  - exact no_panic_generate.
+  - intros ens i H. destruct (invocation_no_panic ens i H) as ([| |] & ->); auto.
+Qed.
+Print Assumptions C15_all_inputs_partial.
+
+(* ---- non-vacuity ---- *)
+
+(* the hypothesis ens_ok is satisfiable, and with it concrete command lines reach all three exit classes *)
+Definition ens_ex (n : Z) : list (outcome (list op)) := [Ok [(0, 0); (1, 1); (0, 2)]%nat; Err ($"algorithm")].
+Definition ens_ex2 (n : Z) : list (outcome (list op)) := [Ok [(0, 0); (1, 1); (0, 2)]%nat; Ok [(0, 0); (0, 1); (1, 2)]%nat].
+
+Example C15_ens_ok_satisfiable : ens_ok ens_ex /\ ens_ok ens_ex2.
+Proof.
+  split; intros n _; (split; [discriminate|]).
+  - constructor; [apply wf_check_ok; reflexivity|]. constructor; [exact I|constructor].
+  - constructor; [apply wf_check_ok; reflexivity|]. constructor; [apply wf_check_ok; reflexivity|constructor].
+Qed.
+
+Example C15_exit_classes :
+  cli ens_ex2 (Search $"5" 4 (FFin 1024) (FFin 1024)) = Ok Exit0 /\
+  cli ens_ex2 (Search $"5" 9223372036854775807 FNan (FInf true)) = Ok Exit0 /\
+  cli ens_ex (Search $"5" 4 (FFin 1024) (FFin 1024)) = Ok Exit1 /\        (* an algorithm failed *)
+  cli ens_ex2 (Search $"1/0" 4 (FFin 1024) (FFin 1024)) = Ok Exit1 /\
+  cli ens_ex2 (Search $"0" 4 (FFin 1024) (FFin 1024)) = Ok Exit1 /\
+  cli ens_ex2 (Search $"2-5" 4 (FFin 1024) (FFin 1024)) = Ok Exit1 /\
+  cli ens_ex2 (Search $"5" 0 (FFin 1024) (FFin 1024)) = Ok Exit2 /\
+  cli ens_ex2 (Search $"5" (-1) (FFin 1024) (FFin 1024)) = Ok Exit2 /\
+  cli ens_ex2 (Eval $"x = 1 + 1
+return x << 3") = Ok Exit0 /\
+  cli ens_ex2 (Eval $"return 1") = Ok Exit0 /\
+  cli ens_ex2 (Eval $"return [1] + 1") = Ok Exit1 /\
+  cli ens_ex2 (Fmt true $"return 1") = Ok Exit0 /\
+  cli ens_ex2 (Fmt true $"x = 1
+return x") = Ok Exit0 /\
+  cli ens_ex2 (Fmt false $"return (") = Ok Exit1 /\
+  cli ens_ex2 (Gen $"listing" $"return 1") = Ok Exit1 /\                  (* no instruction: the allocator refuses *)
+  cli ens_ex2 (Gen $"listing" $"return 1 + 1") = Ok Exit0 /\
+  cli ens_ex2 (Gen $"nosuch" $"return 1 + 1") = Ok Exit1 /\
+  cli ens_ex2 (Gen $"ops" $"a = 1 << 3
+return a + [2]") = Ok Exit1.                                              (* dangling input: Validate refuses *)
+Proof. vm_compute. repeat split. Qed.
+
+(* the Panic constructors are live in the composed model: each guard that the theorems rely on is needed.
+   (the instruction-less program in clear_last; p.Chain[n+1] in the dump; a negative index in NameOperands;
+   a shift by zero of a negative index reaches it; make(chan, -1); -p 0; rs[best] on an empty ensemble) *)
+Example C15_panic_sites_are_real :
+  clear_last [] = Panic ($"index") /\
+  dump_ops 0 [(0, 0)%nat] [1] = Panic ($"index") /\
+  name_one name_byte [1] (-5, []) = Panic ($"index") /\
+  build [mkInstr (index_operand (-5)) (IShift (index_operand (-5)) 0)] = Panic ($"index") /\
+  par_execute (-1) [tt] = Panic ($"makechan") /\
+  par_execute 0 [tt] = Panic ($"deadlock") /\
+  search (fun _ => []) $"5" 1 (FFin 1024) (FFin 1024) = Panic ($"index") /\
+  evaluate [(3, 0)%nat] = Panic ($"index") /\
+  Calc.arith Calc.Div 1 0 = Panic ($"divzero").
+Proof. vm_compute. repeat split. Qed.
+
+(* the degenerate inputs of the design's findings F2-F6 and F9-F11, now all answered *)
+Example C15_former_crashes :
+  lib_calc $"1/0" = Err ($"divzero") /\
+  (exists t, lib_build $"return 1" = Ok t) /\
+  (exists t, lib_build $"x = 1
+return x" = Ok t) /\
+  lib_prepare $"return 1" = Err ($"empty") /\
+  lib_parse $"return [9223372036854775808]" = Err ($"parse") /\
+  (exists t, lib_parse $"return ((((((((1))))))))" = Ok t).
+Proof. vm_compute. repeat split; eexists; reflexivity. Qed.
